@@ -27,6 +27,9 @@ import (
 type fval float64
 
 func (f fval) MarshalJSON() ([]byte, error) {
+	if isStale(float64(f)) {
+		return []byte(`"stale"`), nil // staleness marker (a NaN with a special bit pattern)
+	}
 	return json.Marshal(strconv.FormatFloat(float64(f), 'g', -1, 64))
 }
 
